@@ -43,6 +43,11 @@ type verifCodec struct{}
 
 func (verifCodec) Name() string { return "verifc" }
 
+// plusCodec: the same codec under a structured-syntax name (RFC 6838 "+suffix"), as vendor media types have
+type plusCodec struct{ verifCodec }
+
+func (plusCodec) Name() string { return "vnd.verif+bin" }
+
 // poisonValue: a message the verifc codec refuses to marshal (a codec failing in Send, before any byte is written)
 var poisonValue = []byte{0xFA, 0x11, 0xED}
 
@@ -160,6 +165,9 @@ func reqHandler(s *reqScenario) *connect.Handler {
 	for _, c := range s.Codecs {
 		if c == "verifc" {
 			opts = append(opts, connect.WithCodec(verifCodec{}))
+		}
+		if c == "vnd.verif+bin" {
+			opts = append(opts, connect.WithCodec(plusCodec{}))
 		}
 	}
 	if s.Limit > 0 {
